@@ -79,22 +79,42 @@ def decide(prop_id, tier, seed, registry=None, keep_out=False):
         print("unknown or unclaimed property %s" % prop_id)
         return 2
     P = props[prop_id]
-    E = engines[P["engine"]]
-    runs = P["runs"].get(tier) or P["runs"]["quick"]
     t0 = time.time()
     odir = outdir_for(prop_id, tier)
     jobs = []
     meta = []
     max_procs = int(os.environ.get("VERIF_JOBS", "16"))
+    # plan: list of (engine, prop argument given to the harness, run dict)
+    plan = []
+    sweep = P.get("sweep")
+    if sweep:
+        cp = os.path.join(HERE, "tools", "claimed.json")
+        claimed = set(json.load(open(cp))) if os.path.exists(cp) else set(props)
+        for q in sorted(props):
+            Q = props[q]
+            if q == prop_id or Q.get("sweep") or q not in claimed or q in sweep.get("exclude", []):
+                continue
+            if Q.get("sweep_skip"):
+                continue
+            base_run = dict((Q["runs"].get("quick") or [{}])[0])
+            args = dict(base_run.get("args", {}))
+            args.update(Q.get("sweep_args", {}).get(tier, Q.get("sweep_args", {}).get("quick", {})) if isinstance(Q.get("sweep_args", {}).get("quick"), dict) else Q.get("sweep_args", {}))
+            for cfg in sweep["configs"][tier] if isinstance(sweep["configs"], dict) else sweep["configs"]:
+                plan.append((Q["engine"], q, {"config": cfg, "shards": sweep.get("shards", 4), "seeds": sweep.get("seeds", {}).get(tier, 1),
+                                              "args": args, "lite": True, "timeout": sweep.get("timeout", 1800)}))
+    else:
+        for r in (P["runs"].get(tier) or P["runs"]["quick"]):
+            plan.append((P["engine"], prop_id, r))
     try:
-        for ri, r in enumerate(runs):
-            exe = vbuild.build(P["engine"], r["config"], E.get("std", "c++14"), tuple(E.get("extra_flags", ())))
+        for ri, (eng_name, harness_prop, r) in enumerate(plan):
+            E = engines[eng_name]
+            exe = vbuild.build(eng_name, r["config"], E.get("std", "c++14"), tuple(E.get("extra_flags", ())))
             nseeds = int(r.get("seeds", 1))
             shards = int(r.get("shards", 8))
             for si in range(nseeds):
                 s = seed + si * 1000003
                 for sh in range(shards):
-                    base = ["--prop", prop_id, "--tier", tier, "--seed", str(s), "--config", r["config"],
+                    base = ["--prop", harness_prop, "--tier", "quick" if sweep else tier, "--seed", str(s), "--config", r["config"],
                             "--shard", "%d/%d" % (sh, shards)]
                     if r.get("lite"):
                         base.append("--lite")
@@ -103,10 +123,10 @@ def decide(prop_id, tier, seed, registry=None, keep_out=False):
                     tag = "r%d.s%d.sh%d" % (ri, si, sh)
                     timeout_s = int(os.environ.get("VERIF_PROC_TIMEOUT", r.get("timeout", 1200 if tier == "quick" else 7200)))
                     m = {"run": ri, "config": r["config"], "seed": s, "shard": "%d/%d" % (sh, shards), "exe": exe,
-                         "base": base, "env": r.get("env", {})}
+                         "base": base, "env": r.get("env", {}), "engine": eng_name, "harness_prop": harness_prop}
                     meta.append(m)
-                    jobs.append((lambda exe=exe, base=base, cfg=r["config"], tag=tag, to=timeout_s, env=r.get("env"):
-                                 vrun.run_shard(exe, base, cfg, prop_id, odir, tag, to, env)))
+                    jobs.append((lambda exe=exe, base=base, cfg=r["config"], tag=tag, to=timeout_s, env=r.get("env"), hp=harness_prop:
+                                 vrun.run_shard(exe, base, cfg, hp, odir, tag, to, env)))
     except RuntimeError as e:
         print("HARNESS-FAILURE property=%s build: %s" % (prop_id, e))
         return 2
@@ -149,7 +169,21 @@ def decide(prop_id, tier, seed, registry=None, keep_out=False):
                     samples.append({"case": idx, "key": c["begin"]["key"], "config": m["config"], "seed": m["seed"],
                                     "spec": c["begin"].get("spec"), "stats": e.get("stats")})
         for v in res.violations:
-            if v.get("prop", prop_id) != prop_id:
+            if sweep:
+                # only sanitizer reports of the sweep's tools count; everything else is by-catch that
+                # belongs to the property whose cases are being re-run
+                tool = (v.get("key", "").split("#")[-1].split(":")[0]) if v.get("source") == "sanitizer" else None
+                if tool not in sweep["tools"]:
+                    other_prop += 1
+                    continue
+                kinds = sweep.get("kinds")
+                if kinds and not any(k in (v.get("detail", {}).get("kind") or "") for k in kinds):
+                    other_prop += 1
+                    continue
+                v = dict(v)
+                v["prop"] = prop_id
+                v["key"] = "%s:%s" % (m["harness_prop"], v["key"])
+            elif v.get("prop", prop_id) != prop_id:
                 other_prop += 1
                 continue
             v = dict(v)
@@ -181,7 +215,7 @@ def decide(prop_id, tier, seed, registry=None, keep_out=False):
         m = v["_meta"]
         rp = os.path.join(rdir, "%s-%s.json" % (prop_id, hashlib.sha256(key.encode()).hexdigest()[:10]))
         with open(rp, "w") as f:
-            json.dump({"property": prop_id, "key": key, "engine": P["engine"], "config": m["config"], "tier": tier,
+            json.dump({"property": prop_id, "key": key, "engine": m["engine"], "harness_prop": m["harness_prop"], "config": m["config"], "tier": tier,
                        "seed": m["seed"], "case": v.get("case"), "base_args": m["base"], "env": m["env"],
                        "msg": v.get("msg"), "detail": v.get("detail"), "source": v.get("source"), "count": len(vs)}, f, indent=1)
         replay_paths.append((key, rp, v))
@@ -251,6 +285,10 @@ def decide(prop_id, tier, seed, registry=None, keep_out=False):
 
 def cmd_setup():
     props, engines = load_registry()
+    cp = os.path.join(HERE, "tools", "claimed.json")
+    if os.path.exists(cp):
+        claimed = set(json.load(open(cp)))
+        props = {k: v for k, v in props.items() if k in claimed}
     pairs = set()
     for pid, P in props.items():
         for tier, runs in P["runs"].items():
@@ -275,12 +313,12 @@ def cmd_replay(path):
     with open(path) as f:
         rp = json.load(f)
     props, engines = load_registry()
-    P = props[rp["property"]]
-    E = engines[P["engine"]]
-    exe = vbuild.build(P["engine"], rp["config"], E.get("std", "c++14"), tuple(E.get("extra_flags", ())))
+    E = engines[rp["engine"]]
+    exe = vbuild.build(rp["engine"], rp["config"], E.get("std", "c++14"), tuple(E.get("extra_flags", ())))
     odir = outdir_for(rp["property"], "replay")
-    res = vrun.run_shard(exe, rp["base_args"], rp["config"], rp["property"], odir, "replay", 1800, rp.get("env"), only=rp["case"])
-    hit = [v for v in res.violations if v.get("prop", rp["property"]) == rp["property"]]
+    hp = rp.get("harness_prop", rp["property"])
+    res = vrun.run_shard(exe, rp["base_args"], rp["config"], hp, odir, "replay", 1800, rp.get("env"), only=rp["case"])
+    hit = [v for v in res.violations if v.get("prop", hp) == hp]
     for v in hit:
         print("reproduced: key=%s msg=%s" % (v["key"], (v.get("msg") or "")[:400]))
     if not hit:
